@@ -327,7 +327,8 @@ namespace c09
                 for (auto &ed : cur["edges"])
                     if (ed[0] == x["v"] && ed[1] == x["v"])
                         selfLoop = true;
-                if (selfLoop && !survivesInChild([&] {
+                static std::set<const vt::Edge *> survived;  // a model transition is tried in a child once
+                if (selfLoop && !survived.count(&e) && !survivesInChild([&] {
                         if (variant == 0)
                             pd->removeVertex(x["v"].get<unsigned int>());
                         else
@@ -337,6 +338,8 @@ namespace c09
                     cur = e.exp["obs"];
                     return fail("crash:RemoveVertex-self-loop: removeVertex of a vertex with an edge to itself crashes");
                 }
+                if (selfLoop)
+                    survived.insert(&e);
                 if (variant == 0)
                     ret = pd->removeVertex(x["v"].get<unsigned int>());
                 else
